@@ -213,3 +213,44 @@ func VerifHintMerge(srcs []string, chunkIDs []int, dst string, forGC bool) (coll
 	}
 	return
 }
+
+// ---- merkle tree (C08) ----
+
+type VerifTree struct{ t *HTree }
+
+func VerifNewTree(depth, bucketID, height int) *VerifTree {
+	return &VerifTree{newHTree(depth, bucketID, height)}
+}
+
+func verifKI(khash uint64) *KeyInfo {
+	return NewKeyInfoFromBytes([]byte("k"), khash, false)
+}
+
+func (v *VerifTree) Set(khash uint64, ver int32, vhash uint16, chunk int, off uint32) {
+	v.t.set(verifKI(khash), &Meta{Ver: ver, ValueHash: vhash}, Position{chunk, off})
+}
+
+func (v *VerifTree) Remove(khash uint64, chunk int, off uint32) {
+	v.t.remove(verifKI(khash), Position{chunk, off})
+}
+
+func (v *VerifTree) Get(khash uint64) (ver int32, vhash uint16, chunk int, off uint32, found bool) {
+	m, pos, found := v.t.get(verifKI(khash))
+	return m.Ver, m.ValueHash, pos.ChunkID, pos.Offset, found
+}
+
+func (v *VerifTree) ListDir(path string) ([]byte, error) {
+	ki := NewKeyInfoFromBytes([]byte(path), 0, true)
+	return v.t.ListDir(ki)
+}
+
+func (v *VerifTree) Root() (hash uint16, count uint32) {
+	n := v.t.Update()
+	return n.hash, n.count
+}
+
+func (v *VerifTree) Dump(path string)       { v.t.dump(path) }
+func (v *VerifTree) Load(path string) error { return v.t.load(path) }
+func (v *VerifTree) Release()               { v.t.release() }
+
+func VerifSetThresholdListKey(n uint32) { thresholdListKey = n }
